@@ -94,6 +94,9 @@ Section Modes.
       zero-length file: HDF5 treats an empty file opened for writing as a fresh one and initialises it) *)
   Definition blank : h5file := mkH5 {| h_format := None; h_version := None; h_id := None |} false false false false empty.
 
+  (** both groups and both time stamps are there (every file the library wrote, whatever its header says) *)
+  Definition shaped (f : h5file) : bool := f_meta f && f_data f && f_cat f && f_uat f.
+
   (** `root.openGroup(name)` (create = true) / `if (!root.hasAttr(a)) root.setAttr(a, ..)`:
       nothing happens when the object is there; creating it needs a writable file *)
   Definition ensure (ro present : bool) : res unit :=
@@ -220,7 +223,17 @@ Section Modes.
     | _, Some fc =>
         if lacks_header fc then (if force then SpecAny else SpecRefuse)
         else match fc with
-             | H5 f => if lib_produced f then SpecOpen mode (f_tree f) else SpecAny    (* other versions: C10 *)
+             | H5 f =>
+                 if lib_produced f then SpecOpen mode (f_tree f)
+                 else if force then SpecAny        (* Force is an explicit override: the property does not constrain it *)
+                 else if shaped f then
+                   (* a complete header of another format version: the version gate of C10 decides
+                      (ReadWrite: identical version; ReadOnly: same major, minor not newer) *)
+                   match h_version (f_hdr f) with
+                   | Some [x; y; z] => if gate_specb x y z mode false then SpecOpen mode (f_tree f) else SpecRefuse
+                   | _ => SpecAny
+                   end
+                 else SpecAny
              | _ => SpecAny
              end
     end.
